@@ -59,7 +59,7 @@ fn apply_batch(set: &mut Vec<Element>, adds: &[Element], dels: &[Element]) {
 
 pub fn gen_c14(em: &mut Emitter, rng: &mut Rng) {
     em.rule = "random accumulator histories (1..4 batches of 0..4 additions / deletions, tracked element inside or outside, \
-               deleted or not; one history in five with a degenerate batch whose elements sum to −α, i.e. an identity update coefficient) on the real vb20 API; every coefficient vector, accumulator value, from-scratch / batch / \
+               deleted or not; one history in five with a degenerate batch whose elements sum to −α, i.e. an identity update coefficient; single batches of 257 / 300 deletions) on the real vb20 API; every coefficient vector, accumulator value, from-scratch / batch / \
                multi-batch (every contiguous grouping) / single-step witness is compared with the Lean model in \
                discrete-log space (model scalar s ↦ s·G1 compared with the real compressed point); oracle: updated witness \
                = recomputed witness and verifies unless the element was deleted, then never verifies".into();
@@ -364,6 +364,65 @@ pub fn gen_c14(em: &mut Emitter, rng: &mut Rng) {
         }
         if hi < 3 {
             em.sample(replay_base);
+        }
+    }
+    large_batches(em, &mut rng.sub(1414));
+}
+
+/// batches longer than any block size (257 / 300 deletions, a few additions; thorough: also 513 and 1030): published
+/// value, coefficients and the batch / multi-batch update of a tracked member against the secret-key recomputation
+fn large_batches(em: &mut Emitter, rng: &mut Rng) {
+    let g = G1Projective::GENERATOR;
+    let sizes: Vec<usize> = if em.thorough() { vec![255, 256, 257, 300, 513, 1030] } else { vec![257, 300] };
+    for n in sizes {
+        let alpha = rng.scalar();
+        let key = SecretKey(alpha);
+        let pk = PublicKey(G2Projective::GENERATOR * alpha);
+        let members: Vec<Element> = (0..n + 2).map(|_| Element(rng.scalar())).collect();
+        let y = members[n + 1];
+        let acc0 = Accumulator::with_elements(&key, &members);
+        let v0 = members.iter().fold(Scalar::ONE, |a, e| a * (e.0 + alpha));
+        em.oracle_case(&format!("large-batch {}", n));
+        em.count(&format!("large-batch:{}", n));
+        let replay = json!({"alpha": sc_hex(&alpha), "batch_size": n});
+        if acc0.0 != g * v0 {
+            em.violation("with-elements-value", format!("Accumulator::with_elements over {} elements != G·∏(e+α)", n + 2), replay.clone());
+            continue;
+        }
+        let dels: Vec<Element> = members[..n].to_vec();
+        let adds: Vec<Element> = (0..3).map(|_| Element(rng.scalar())).collect();
+        let (acc1, coefs) = acc0.update(&key, &adds, &dels);
+        let v1 = v0 * adds.iter().fold(Scalar::ONE, |a, e| a * (e.0 + alpha)) * dels.iter().fold(Scalar::ONE, |a, e| a * (e.0 + alpha)).invert().unwrap();
+        if acc1.0 != g * v1 {
+            em.violation("accumulator-update-value", format!("Accumulator::update with {} deletions: value != V·∏A(α)/∏D(α)", n), replay.clone());
+        }
+        // the same deletions in blocks of 32 reach the same value
+        let mut acc_b = acc0;
+        let (a2, _) = acc_b.update(&key, &adds, &[]);
+        acc_b = a2;
+        for ch in dels.chunks(32) {
+            let (a3, _) = acc_b.update(&key, &[], ch);
+            acc_b = a3;
+        }
+        if acc_b.0 != acc1.0 {
+            em.violation("accumulator-update-depends-on-batching", format!("{} deletions at once and in blocks of 32 give different values", n), replay.clone());
+        }
+        let w0 = MembershipWitness::new(y, acc0, &key);
+        let want = MembershipWitness(g * (v1 * (y.0 + alpha).invert().unwrap()));
+        let w1 = w0.batch_update(y, &adds, &dels, &coefs);
+        if w1.0 != want.0 || !w1.verify(y, pk, acc1) {
+            em.violation("batch-update-mismatch", format!("batch_update over a batch of {} deletions differs from the recomputed witness", n), replay.clone());
+        }
+        let mut w00 = w0;
+        let wm = w00.multi_batch_update(y, &[(adds.clone(), dels.clone(), coefs.clone())]);
+        if wm.0 != want.0 {
+            em.violation("multi-batch-update-mismatch", format!("multi_batch_update over one batch of {} deletions differs from the recomputed witness", n), replay.clone());
+        }
+        // a deleted member's witness must not verify after the update
+        let yd = members[n - 1];
+        let wd = MembershipWitness::new(yd, acc0, &key).batch_update(yd, &adds, &dels, &coefs);
+        if wd.verify(yd, pk, acc1) {
+            em.violation("deleted-element-verifies", format!("the last element of a batch of {} deletions still has a verifying witness", n), replay.clone());
         }
     }
 }
